@@ -23,7 +23,7 @@ var c17keyCatalog = map[string][]string{
 	"uint16":  {"0", "1", "32767", "32768", "65535"},
 	"uint32":  {"0", "1", "2147483647", "2147483648", "4294967295"},
 	"uint64":  {"0", "1", "9007199254740993", "9223372036854775807", "9223372036854775808", "18446744073709551615"},
-	"string":  {"a", "A", "b", "aa", "ab", "zz", "10", "9", "1", "01"},
+	"string":  {"a", "A", "b", "aa", "ab", "zz", "10", "9", "1", "01", "a,b", "b,c", "c"},
 	"boolean": {"true", "false"},
 }
 
@@ -95,6 +95,28 @@ func c17Lookup(c *core.Ctx, k int) {
 		tuples = tuples[:60]
 	}
 	nPresent := (len(tuples) + 1) / 2
+	if len(cfg.types) == 2 && cfg.types[0] == "string" && cfg.types[1] == "string" {
+		// two tuples that read the same once their components are joined with a comma: one present, one asked for
+		var rest [][]string
+		for _, tu := range tuples {
+			if j := strings.Join(tu, ","); j != "a,b,c" {
+				rest = append(rest, tu)
+			}
+		}
+		pair := [][]string{{"a", "b,c"}, {"a,b", "c"}}
+		if r.Intn(2) == 0 {
+			pair[0], pair[1] = pair[1], pair[0]
+		}
+		tuples = append([][]string{pair[0]}, rest...)
+		nPresent = (len(tuples) + 1) / 2
+		if r.Intn(2) == 0 {
+			// both present
+			tuples = append([][]string{pair[1]}, tuples...)
+			nPresent++
+		} else {
+			tuples = append(tuples, pair[1])
+		}
+	}
 	root := dp.NewDNode(nil)
 	dl := &dp.DList{S: lst}
 	root.Lists["l"] = dl
